@@ -131,6 +131,12 @@ def make_tree(kind, seed, t):
     rnd = random.Random(seed)
     if kind == "fixture":
         return valtrace.fixture_root()
+    if kind == "default-ns":
+        xml = ('<eml xmlns="https://eml.ecoinformatics.org/eml-2.2.0" xmlns:xsi="http://www.w3.org/2001/XMLSchema-instance" packageId="p.1.1" system="s">'
+               '<dataset><title>Default namespace &amp; more</title><creator><organizationName>Org</organizationName></creator>'
+               '<contact><organizationName>Org</organizationName></contact><additionalMetadata><metadata><u xmlns="urn:other">x</u></metadata></additionalMetadata>'
+               '</dataset></eml>')
+        return metapype_io.from_xml(xml, clean=rnd.random() < 0.5)
     if kind == "ns":
         xml = ('<eml:eml xmlns:eml="https://eml.ecoinformatics.org/eml-2.2.0" xmlns:xsi="http://www.w3.org/2001/XMLSchema-instance" '
                'packageId="p.1.1" system="s" xsi:schemaLocation="a b"><dataset><title>T &amp; t &lt;x&gt;</title>tail<creator id="c1"><individualName>'
@@ -190,12 +196,12 @@ def run(rep, tier, seed):
     rnd = random.Random(seed)
     jobs = []
     # all ordered pairs on small trees of every kind
-    for i, kind in enumerate(["generated", "entities", "ns"] + (["generated", "entities"] if tier == "thorough" else [])):
+    for i, kind in enumerate(["generated", "entities", "ns", "default-ns"] + (["generated", "entities"] if tier == "thorough" else [])):
         jobs.append((kind, seed * 101 + i, plan_pairs))
     # seeded sequences of length 24 on larger trees, incl. the fixture
     nseq = 8 if tier == "quick" else 150
     for i in range(nseq):
-        kind = ["fixture", "generated", "entities", "ns"][i % 4]
+        kind = ["fixture", "generated", "entities", "ns", "default-ns"][i % 5]
         jobs.append((kind, seed * 977 + i, [rnd.choice(sorted(ops)) for _ in range(24)]))
     traces = [tr for chunk in parallel(w_record, jobs, chunk=1) for tr in chunk]
     strip = lambda tr: {"init": tr["init"], "events": tr["events"]}  # noqa: E731
